@@ -24,10 +24,15 @@ class MIADistinguisherMixin(_PartitionnedDistinguisherBaseMixin):
             raise ValueError(f'bin_edges length must be >1, but {len(bin_edges)}, found.')
         if not isinstance(bin_edges, _np.ndarray):
             bin_edges = _np.array(bin_edges, dtype='float64')
+        if not _np.all(_np.isfinite(bin_edges)):
+            raise ValueError('bin_edges must be finite.')
         for a, b in zip(bin_edges, bin_edges[1:]):
             if not a < b:
                 raise ValueError(f'bin_edges must be sorted, but {a} >= {b}.')
-        if _np.any(_np.abs(_np.diff(_np.diff(bin_edges))) > 1e-9 * max(1., _np.max(_np.abs(bin_edges)))):
+        # Widths are compared with each other, up to the rounding of the edges in their own type.
+        widths = _np.diff(bin_edges.astype('float64'))
+        rounding = _np.finfo(bin_edges.dtype).eps if bin_edges.dtype.kind == 'f' else 0.
+        if _np.any(_np.abs(_np.diff(widths)) > 1e-9 * _np.min(widths) + 8 * rounding * _np.max(_np.abs(bin_edges))):
             raise ValueError('bin_edges must be uniform (i.e with bins equally spaced.')
         self._bin_edges = bin_edges
         self.bins_number = len(bin_edges) - 1
